@@ -263,6 +263,9 @@ def run_window(c, out):
 
     shape, size, ctr = tuple(c["shape"]), list(c["size"]), np.array(c["centre"])
     vol = np.random.default_rng(c["seed"]).normal(5, 2, shape)
+    if c["seed"] % 4 == 0:  # integer-typed volumes (raw tomograms, label maps): the fill value is still their (fractional) mean
+        vol = np.round(vol * 7).astype([np.int16, np.uint8, np.int32][c["seed"] % 12 // 4]) if c["seed"] % 12 // 4 != 1 else np.clip(np.round(vol * 7), 0, 255).astype(np.uint8)
+        out.label(f"window:integer_volume:{vol.dtype}")
     mean = vol.mean()
     start = ctr - np.array(size) // 2
     exp = np.full(size, mean)
